@@ -207,6 +207,10 @@ def fam_i(case, fl):
         es, ts = G.stmt_exprs(s)
         if any(n in G.target_attr_heads(t) for t in ts):
             return True
+        for e in es + ts:          # the same store as the target of a comprehension's `for`
+            for x in G.walk_exprs(e):
+                if x[0] in ("listComp", "setComp", "genExp", "dictComp") and any(n in G.target_attr_heads(g[0]) for g in x[-1]):
+                    return True
     return False
 
 
@@ -250,10 +254,34 @@ def _code(fl, what):
     return fl.get("variant") == "code" and fl.get("what") == what
 
 
+def _code_load_and_store(src, name):
+    """some code object of the compiled program both loads `name` as a global (LOAD_NAME / LOAD_GLOBAL) and stores it
+    (STORE_NAME / STORE_GLOBAL) — what `_find_loads_without_stores_in_code` matches against each other"""
+    import dis
+    try:
+        top = compile(src, "<c05>", "exec", dont_inherit=True)
+    except SyntaxError:
+        return False
+    for co in G._all_code(top):
+        ops = {(i.opname, i.argval) for i in dis.get_instructions(co)}
+        if ({("LOAD_NAME", name), ("LOAD_GLOBAL", name)} & ops) and ({("STORE_NAME", name), ("STORE_GLOBAL", name)} & ops):
+            return True
+    return False
+
+
 def fam_code_bound(case, fl):
-    """bytecode variant, unsound: the name has a binding statement somewhere in the program (the variant only looks for
-    a STORE of the same name in the same code object, before the load or anywhere once there is a backward jump)"""
-    return _code(fl, "NameError name not reported") and bool(G.binding_sites(fl["src"], fl["name"])[0])
+    """bytecode variant, unsound: the SAME code object that loads the name also stores it somewhere (the variant only
+    looks for a STORE of the same name in the same code object: a store in a branch not taken, in a loop that does not
+    run, or after the load once there is a backward jump hides the load).  A store in a different code object (a class
+    body, another function) does not belong here."""
+    return _code(fl, "NameError name not reported") and _code_load_and_store(fl["src"], fl["name"])
+
+
+def fam_code_b2(case, fl):
+    """bytecode variant of exceptNameInCallerNs: the name of an `except … as n` clause that a caller namespace binds — the
+    handler's implicit `del n` unbinds it, the analysis sees it in the namespaces given"""
+    return _code(fl, "NameError name not reported") and any(fl["name"] in d for d in fl.get("ns", [])) and \
+        any(s[0] == "try" and any(h[1] == fl["name"] for h in s[2]) for s in _stmts(case))
 
 
 def fam_code_attr(case, fl):
@@ -269,16 +297,148 @@ def fam_code_imprecise(case, fl):
         or _attr_stored_prefix(case, fl["name"]))
 
 
-FAMILIES = dict(classCompRead=fam_a, exceptNameAfter=fam_b, augUnbound=fam_c, classNameRemoved=fam_d,
+def _funcs_with_classes(body, enclosing=None):
+    """(function statement, class statement nested in it — through compound statements and other classes, not through
+    another function) pairs"""
+    for st in body:
+        if st[0] == "funcDef":
+            yield from _funcs_with_classes(st[3], st)
+        else:
+            if st[0] == "classDef" and enclosing is not None:
+                yield enclosing, st
+            for b in G.sub_bodies(st):
+                yield from _funcs_with_classes(b, enclosing)
+
+
+def _function_binds(fn, n):
+    if n in _fn_params(fn):
+        return True
+    return _bound_in_class_level(fn[3], n)          # (same walk: statements of the body, not of nested defs / classes)
+
+
+def fam_m(case, fl):
+    """a class body inside a function reads a name n that the class body also binds, and the enclosing function binds n
+    too (parameter or local): CPython compiles the read as LOAD_NAME (class namespace, then globals — the function's
+    scope is skipped), the analysis finds n in the function's scope"""
+    if not _unsound(fl):
+        return False
+    n = fl["name"]
+    for fn, cl in _funcs_with_classes(G.all_stmts(case["prog"])):
+        if _function_binds(fn, n) and _bound_in_class_level(cl[3], n) and \
+                (_reads_in_body_level(cl[3], n) or any(t[0] == "augAssign" and t[1] == ["name", n] for t in _class_level(cl[3]))):
+            return True
+    return False
+
+
+def _all_targets(case):
+    """every store target of the program: statement targets, `with`/`for` targets, comprehension targets (tuples flattened)"""
+    def flat(t):
+        if t is None:
+            return
+        if t[0] in ("tuple", "list"):
+            for x in t[1]:
+                yield from flat(x)
+        else:
+            yield t
+    for s in _stmts(case):
+        es, ts = G.stmt_exprs(s)
+        for t in ts:
+            yield from flat(t)
+        for e in es + ts:
+            for x in G.walk_exprs(e):
+                if x[0] in ("listComp", "setComp", "genExp", "dictComp"):
+                    for g in x[-1]:
+                        yield from flat(g[0])
+
+
+def fam_alias(case, fl):
+    """imprecision: the program stores an attribute through a name that a caller namespace binds to a `sys.modules` entry
+    (`c.s1 = v` with c = the module pa): at run time `pa.s1…` resolves, the analysis looked at the module before the run"""
+    if fl.get("what") != "reported name whose lookups all succeed":
+        return False
+    mods = {n: v[1] for d in fl.get("ns", []) for n, v in d.items() if v[0] == "mod"}
+    for t in _all_targets(case):
+        if t[0] == "attr":
+            try:
+                parts = G.r_expr(t).split(".")
+            except Exception:
+                continue
+            if parts[0] in mods and all(p.isidentifier() for p in parts):
+                dotted = ".".join([mods[parts[0]]] + parts[1:])
+                if fl["name"] == dotted or fl["name"].startswith(dotted + "."):
+                    return True
+    return False
+
+
+def fam_b5(case, fl):
+    """the name of an `except … as n` clause inside a `for` loop, read in that loop: the handler unbinds n, the next
+    iteration reads it (the analysis visits the loop body once, top to bottom)"""
+    if not _except_name(case, fl):
+        return False
+    n = fl["name"]
+    for s in _stmts(case):
+        if s[0] == "for":
+            inner = list(G.walk_stmts(s[3]))
+            if any(t[0] == "try" and any(h[1] == n for h in t[2]) for t in inner):
+                for t in inner:
+                    es, ts = G.stmt_exprs(t)
+                    if any(n in G.names_read(e) for e in es) or any(n in G.names_read(x, True) for x in ts) \
+                            or (t[0] == "augAssign" and t[1] == ["name", n]):
+                        return True
+    return False
+
+
+def _has_star(case, fl):
+    import ast as _ast
+    try:
+        tree = _ast.parse(fl["src"])
+    except (SyntaxError, KeyError):
+        return None
+    stars = [n.lineno for n in _ast.walk(tree) if isinstance(n, _ast.ImportFrom) and any(a.name == "*" for a in n.names)]
+    return (tree, min(stars)) if stars else None
+
+
+def fam_star(case, fl):
+    """the program holds `from m import *` and the name is read after it (or inside a function / lambda body, which is
+    checked when the module is complete): after a star import nothing is reported (`has_star_import`), by design —
+    the analysis cannot know what the star import binds"""
+    import ast as _ast
+    if not _unsound(fl):
+        return False
+    hs = _has_star(case, fl)
+    if not hs:
+        return False
+    tree, line = hs
+    n = fl["name"]
+    aug = {id(a.target) for a in _ast.walk(tree) if isinstance(a, _ast.AugAssign)}      # `n += v` reads n
+    for f in _ast.walk(tree):
+        if isinstance(f, _ast.Name) and f.id == n and (not isinstance(f.ctx, _ast.Store) or id(f) in aug) and f.lineno > line:
+            return True
+        if isinstance(f, (_ast.FunctionDef, _ast.AsyncFunctionDef, _ast.Lambda)):
+            body = f.body if isinstance(f.body, list) else [f.body]
+            if any(isinstance(x, _ast.Name) and x.id == n for b in body for x in _ast.walk(b)):
+                return True
+    return False
+
+
+def fam_code_star(case, fl):
+    """bytecode variant, imprecise: a name that a star import of the program binds at run time (a member or sub-package
+    of the universe module) — the code object has no STORE for it"""
+    import re
+    return _code(fl, "reported name whose lookups all succeed") and bool(_has_star(case, fl)) and \
+        bool(re.fullmatch(r"m\d|d\d|s\d+", fl["name"].split(".")[0]))
+
+
+FAMILIES = dict(aliasedModuleAttrStore=fam_alias, exceptNameLoopCarried=fam_b5, classInFunctionSkipsFunctionScope=fam_m, starImport=fam_star, codeStarImport=fam_code_star, classCompRead=fam_a, exceptNameAfter=fam_b, augUnbound=fam_c, classNameRemoved=fam_d,
                 unexecutedBinding=fam_e, targetInHeader=fam_f, annAssignTarget=fam_g, attrStoreUnbound=fam_i,
                 paramInAnnotation=fam_j, compVarInOwnIterable=fam_l, exceptNameInCallerNs=fam_b2, exceptNameReadInFunction=fam_b3, importSideEffect=fam_imp,
-                codeStoreExists=fam_code_bound, codeAttrStore=fam_code_attr, codeImprecise=fam_code_imprecise)
+                codeStoreExists=fam_code_bound, codeExceptNameInCallerNs=fam_code_b2, codeAttrStore=fam_code_attr, codeImprecise=fam_code_imprecise)
 
 
 class C05(Prop):
     id = "C05"
     driver = "C05"
-    lean_modules = ["Pfb.C05.Props", "Pfb.PyCore.Json", "Pfb.PyCore.Unused"]
+    lean_modules = ["Pfb.C05.Props", "Pfb.PyCore.Json", "Pfb.PyCore.Unused", "Pfb.C05.PropsG", "Pfb.C05.PropsH"]
     theorems = [
         "Pfb.C05.C05_sound_fragB",
         "Pfb.C05.C05_precise_fragB",
@@ -303,6 +463,12 @@ class C05(Prop):
         "Pfb.C05.witness_a", "Pfb.C05.witness_b", "Pfb.C05.witness_c", "Pfb.C05.witness_d", "Pfb.C05.witness_d2",
         "Pfb.C05.witness_e", "Pfb.C05.witness_f", "Pfb.C05.witness_g", "Pfb.C05.witness_g2", "Pfb.C05.witness_h",
         "Pfb.C05.witness_i", "Pfb.C05.witness_j", "Pfb.C05.witness_l",
+        "Pfb.C05.C05_sound_fragG", "Pfb.C05.C05_precise_fragG", "Pfb.C05.fragB_sub_fragG",
+        "Pfb.C05.witness_comp_var_no_leak", "Pfb.C05.witness_comp_empty_iter", "Pfb.C05.witness_comp_false_cond",
+        "Pfb.C05.witness_comp_iter_outer_scope", "Pfb.C05.witness_lambda_param_local", "Pfb.C05.witness_lambda_body_deferred",
+        "Pfb.C05.C05_sound_fragH", "Pfb.C05.C05_precise_fragH", "Pfb.C05.fragC_sub_fragH", "Pfb.C05.plainB_plainH_fragC",
+        "Pfb.C05.witness_default_not_param", "Pfb.C05.witness_default_evaluated_at_def",
+        "Pfb.C05.witness_lambda_param_local_H", "Pfb.C05.witness_lambda_late_binding_H",
     ]
     anchors = [
         ("lib/python/pyflyby/_autoimp.py", "ScopeStack"),
@@ -324,7 +490,13 @@ class C05(Prop):
             "names present, registry modules with/without the attribute, non-registry module objects) x loaded part of a synthetic "
             "import universe; each case is executed on CPython by define-and-rerun (one oracle evaluation per run) and analysed by "
             "find_missing_imports on source and on the compiled code object; plus the D9 corpus and an exhaustive small scope of "
-            "<= 3 statements over 16 statement forms x 2 names; non-trivial = program of >= 2 lines, distinct by source+namespaces")
+            "<= 3 statements over 16 statement forms x 2 names; half of the generated programs also use dict displays, async def / "
+            "async for / async with / await, `__all__` in its forms, star imports and docstrings with doctest examples and {name} "
+            "references (rewritten to model constructs for K, see gen_c05.desugar); every case is also analysed through the other "
+            "entry forms of find_missing_imports (ast node, PythonBlock, function, callable object, namespaces as dict / ScopeStack, "
+            "dotted-name string / DottedIdentifier), which must agree with the str / code form; raw source snippets with type comments "
+            "(judged) and match / walrus / type alias / PEP 695 (explored: crash + names not bound by those constructs) run O-only; "
+            "non-trivial = program of >= 2 lines, distinct by source+namespaces")
     trusted_base = ["CPython 3.12 executes the rendered program: NameError/AttributeError events, executed reads and stores are "
                     "taken from sys.settrace opcode events (the oracle never consults the Lean models)",
                     "Pfb.PyCore.Exec is a model of CPython validated run-by-run by K(b), not derived from CPython",
@@ -336,6 +508,8 @@ class C05(Prop):
                    "claim rests on K(a) (findMissing = find_missing_imports), K(b) (Exec = CPython) and the oracle",
                    "the unchanged code is unsound on the D9 families listed in known_findings/C05.json (each with a decide-proved "
                    "counterexample in Pfb/C05/Props.lean)",
+                   "K(b) is not run for programs with a star import (the run-time model has none; K(a) is), and raw source snippets "
+                   "(type comments, match, walrus, type alias, PEP 695) have no model at all: O only",
                    "K(b) skips runs in which CPython or the model raises an exception type the model does not track exactly "
                    "(TypeError etc.) and tolerates one CPython 3.12 quirk (PEP 709 sibling-comprehension fast locals)"]
 
@@ -384,7 +558,7 @@ class C05(Prop):
     # -- cases -----------------------------------------------------------------
     def gen_case(self, rng, i, tier):
         for _ in range(6):
-            g = G.Gen(rng, ext=(rng.random() < 0.05))
+            g = G.Gen(rng, ext=(rng.random() < 0.05), more=(rng.random() < 0.5))
             r = rng.random()
             prog = g.program(nstmts=rng.choice([1, 1, 2]) if r < 0.3 else None)
             try:
@@ -490,6 +664,86 @@ class C05(Prop):
                     ):
                         yield dict(prog=dict(body=body, calls=calls), ns=[{}], loaded=[], ext=False)
 
+    @staticmethod
+    def raw_cases(rng, tier):
+        """raw source snippets (gen_c05.RAW_TEMPLATES): every template once per run with random holes (twice in thorough)"""
+        out = []
+        for _ in range(3 if tier == "thorough" else 1):
+            for kind, src, marker in G.raw_snippets(rng, per_kind=None):
+                r = rng.random()
+                ns = [{}] if r < 0.6 else [{rng.choice(G.VNAMES): ["obj"]}] if r < 0.8 else [{"pa": ["mod", "pa"]}]
+                out.append(dict(prog=dict(body=[], calls=[]), raw=src, marker=marker, kind=kind, ns=ns,
+                                loaded=["pa", "pa.s1"] if r >= 0.8 or rng.random() < 0.3 else [],
+                                ext=(kind in G.RAW_EXT_KINDS)))
+        return out
+
+    @staticmethod
+    def ident_cases():
+        """one-line programs that are a single (dotted) name: also analysed as a bare identifier string / DottedIdentifier"""
+        N = lambda s: ["name", s]
+        A = lambda e, a: ["attr", e, a]
+        exprs = [N("x"), N("pa"), N("len"), A(N("pa"), "m1"), A(N("pa"), "s1"), A(A(N("pa"), "s1"), "m2"), A(N("pa"), "zz"),
+                 A(A(N("pa"), "s2"), "m1"), A(N("x"), "u"), A(A(N("pb"), "s1"), "d1"), A(A(A(N("pa"), "s1"), "s2"), "m1")]
+        nss = [([{}], []), ([{}], ["pa", "pa.s1"]), ([{"pa": ["mod", "pa"]}], ["pa", "pa.s1"]), ([{"x": ["obj"]}, {"pa": ["fakemod", "pa"]}], ["pa"]),
+               ([{"pa": ["mod", "pa"]}, {}], ["pa", "pa.s1", "pa.s1.s2"])]
+        for e in exprs:
+            for ns, loaded in nss:
+                yield dict(prog=dict(body=[["expr", e]], calls=[]), ns=ns, loaded=loaded, ext=False)
+
+    @staticmethod
+    def more_cases():
+        """fixed programs for the `more` constructs, so that each is met in every run whatever the random draw"""
+        N = lambda s: ["name", s]
+        K = ["const"]
+        F0 = {"args": [], "defaults": []}
+        call = lambda f: ["expr", ["call", N(f), []]]
+        run = lambda f: ["expr", ["run", ["call", N(f), []]]]
+        progs = [
+            ([["assign", [N("a")], ["dict", [[N("x"), N("y")], [None, N("b")]]]]], []),
+            ([["funcDef", "f", F0, [["return", ["dict", [[N("x"), N("y")], [None, N("b")]]]]], [], None], ["assign", [N("y")], K]], [call("f")]),
+            ([["classDef", "C", [], [["assign", [N("x")], K], ["assign", [N("a")], ["dict", [[N("x"), ["lambda", F0, N("x")]]]]]], []]], []),
+            ([["funcDef", "af", F0, [["for", N("x"), N("y"), [["expr", N("x")]], [["expr", N("b")]], True], ["return", N("x")]], [], None, True]], [run("af")]),
+            ([["funcDef", "af", F0, [["for", N("c"), ["list", [N("c")]], [["pass"]], [], True]], [], None, True]], [run("af")]),
+            ([["funcDef", "af", F0, [["with", [[N("y"), N("x")]], [["expr", N("x")]], True], ["assign", [N("a")], ["await", N("b")]]], [], None, True],
+              ["assign", [N("b")], K]], [run("af")]),
+            ([["funcDef", "af", {"args": [["p", N("x")]], "defaults": [N("y")]}, [["return", N("p")]], [N("a")], N("b"), True]], [run("af")]),
+            ([["classDef", "C", [], [["funcDef", "af", F0, [["return", N("C")]], [], None, True]], []]],
+             [["expr", ["run", ["call", ["attr", N("C"), "af"], []]]]]),
+            # annotations are evaluated when the `def` statement runs: a module-level name bound further down is not there yet
+            ([["classDef", "C", [], [["funcDef", "f", {"args": [["p", None]], "defaults": []}, [["return", N("p")]], [], N("x")]], []],
+              ["assign", [N("x")], K]], []),
+            ([["classDef", "C", [], [["funcDef", "g", {"args": [["p", N("y")]], "defaults": []}, [["return", N("p")]], [], None]], []],
+              ["import", [["pa", "y"]]]], []),
+            ([["funcDef", "g", {"args": [["p", N("a")]], "defaults": []}, [["return", N("p")]], [], ["attr", N("b"), "u"]],
+              ["assign", [N("a")], K], ["funcDef", "b", F0, [["pass"]], [], None]], []),
+            ([["classDef", "C", [], [["classDef", "D", [], [["funcDef", "f", F0, [["pass"]], [N("a")], N("y")]], []]], []],
+              ["assign", [N("y"), N("a")], K]], []),
+            # a name stored in one code object (class body, another function) and read as a global in a sibling one
+            ([["classDef", "C", [], [["funcDef", "f", F0, [["pass"]], [], None], ["assign", [N("x")], K]], []],
+              ["funcDef", "g", F0, [["return", ["tuple", [N("f"), N("x")]]]], [], None]], [call("g")]),
+            ([["funcDef", "f", F0, [["assign", [N("y")], K], ["import", [["pa", "b"]]]], [], None],
+              ["funcDef", "g", F0, [["return", ["tuple", [N("y"), N("b")]]]], [], None]], [call("f"), call("g")]),
+            ([["classDef", "C", [], [["import", [["pa", None]]], ["for", N("a"), ["list", [K]], [["pass"]], []]], []],
+              ["expr", ["lambda", F0, ["tuple", [N("pa"), N("a")]]]], ["funcDef", "g", F0, [["return", ["listComp", N("a"), [[N("c"), ["list", [K]], []]]]]], [], None]],
+             [call("g")]),
+            ([["importFrom", "pa", [["*", None]]], ["expr", ["tuple", [N("m1"), N("x")]]]], []),
+            ([["expr", N("x")], ["importFrom", "pa", [["*", None]]], ["expr", N("m1")]], []),
+            ([["funcDef", "f", F0, [["return", ["tuple", [N("m2"), N("y")]]]], [], None], ["importFrom", "pa.s1", [["*", None]]]], [call("f")]),
+            ([["assign", [N("__all__")], ["list", [["str", "x"], ["str", "f"]]]], ["funcDef", "f", F0, [["pass"]], [], None]], [call("f")]),
+            ([["assign", [N("__all__")], ["tuple", [["str", "x"]]]], ["assign", [N("x")], K]], []),
+            ([["assign", [N("__all__")], ["list", [["str", "x"], N("y")]]]], []),
+            ([["assign", [N("__all__")], N("y")]], []),
+            ([["funcDef", "f", F0, [["assign", [N("__all__")], ["list", [["str", "x"]]]]], [], None]], [call("f")]),
+            ([["classDef", "C", [], [["assign", [N("__all__")], ["list", [["str", "x"]]]]], []]], []),
+            ([["expr", ["str", "Doc {x}.\n\n>>> pa.m1(y)\n_K\n"]], ["import", [["pa", None]]], ["importFrom", "pb", [["m1", "x"]]],
+              ["importFrom", "pb", [["m2", "y"]]], ["import", [["pb", "b"]]]], []),
+            ([["import", [["pa", "x"]]], ["funcDef", "f", F0, [["expr", ["str", ">>> x.m1\n>>> import pb\n>>> pb.zz + y\n"]], ["pass"]], [], None],
+              ["importFrom", "pb", [["m1", "y"]]]], [call("f")]),
+        ]
+        for body, calls in progs:
+            for ns, loaded in (([{}], []), ([{"pa": ["mod", "pa"]}], ["pa", "pa.s1"]), ([{"x": ["obj"], "y": ["obj"]}], ["pa"])):
+                yield dict(prog=dict(body=body, calls=calls), ns=ns, loaded=loaded, ext=False)
+
     def exhaustive_cases(self, tier, rng):
         import itertools
         F = self.forms()
@@ -501,6 +755,7 @@ class C05(Prop):
             combos = [(i,) for i in range(len(F))] + rng.sample(combos[len(F):], 260) + \
                      [tuple(rng.randrange(len(F)) for _ in range(3)) for _ in range(120)]
         out = list(self.dynamic_attr_cases()) + list(self.scoped_attr_cases())
+        out += self.raw_cases(rng, tier) + list(self.ident_cases()) + list(self.more_cases())
         for c in combos:
             body = [F[i] for i in c]
             prog = {"body": body, "calls": g.call_stmts(body)}
@@ -562,10 +817,71 @@ class C05(Prop):
                     return str(Import.from_split((mod, n, a or n)))
         return "?%d.%d" % (line, idx)
 
+    def _forms(self, src, code, nss):
+        """the report through every other entry form of find_missing_imports"""
+        import ast
+        import types
+        from pyflyby._autoimp import ScopeStack
+        from pyflyby._idents import DottedIdentifier
+        from pyflyby._parse import PythonBlock
+        out = {}
+        try:
+            tree = ast.parse(src, type_comments=True)
+        except SyntaxError:
+            tree = ast.parse(src)
+        import zlib
+        h = zlib.crc32(src.encode())           # which of the equivalent spellings this case uses (deterministic per source)
+        out["ast"] = self._report(tree, nss)
+        out["block"] = self._report(PythonBlock(src), nss)
+        if h % 3 == 0 and len(nss) == 1:
+            out["nsdict"] = self._report(src, nss[0])
+        elif h % 3 == 1:
+            out["tuple"] = self._report(src, tuple(nss))
+        else:
+            out["scopestack"] = self._report(src, ScopeStack(nss))
+        fn = types.FunctionType(code, {})
+        if (h >> 4) % 2:
+            out["func"] = self._report(fn, nss)
+        else:
+            out["callobj"] = self._report(type("Obj", (object,), {"__call__": fn})(), nss)
+        out["builtin"] = self._report(len, nss)
+        one = src.strip()
+        if one and all(p.isidentifier() for p in one.split(".")) and "\n" not in one:
+            import keyword
+            if not any(keyword.iskeyword(p) for p in one.split(".")):
+                out["ident_str"] = self._report(one, nss)
+                out["ident_obj"] = self._report(DottedIdentifier(one), nss)
+                out["ident_tuple"] = self._report(DottedIdentifier(tuple(one.split("."))), nss)
+        return out
+
+    @staticmethod
+    def _scan(src, doc, unused=True):
+        """scan_for_import_issues(find_unused_imports=unused, parse_docstrings=doc) -> sorted missing / unused"""
+        from pyflyby._autoimp import scan_for_import_issues
+        from pyflyby._parse import PythonBlock
+        try:
+            missing, unused = scan_for_import_issues(PythonBlock(src), find_unused_imports=unused, parse_docstrings=doc)
+            return dict(missing=sorted([int(l or 0), str(n)] for l, n in missing),
+                        unused=sorted([int(l), str(i)] for l, i in unused or ()))
+        except Exception as e:
+            return {"err": type(e).__name__ + ": " + str(e)[:200]}
+
+    @staticmethod
+    def _has_docstring(prog):
+        return any(st[0] == "expr" and st[1][0] == "str" and (">>>" in st[1][1] or "{" in st[1][1])
+                   for st in G.walk_stmts(G.all_stmts(prog)))
+
+    @staticmethod
+    def _has_star(prog):
+        return any(st[0] == "importFrom" and any(n == "*" for n, a in st[2]) for st in G.walk_stmts(G.all_stmts(prog)))
+
     def run_impl(self, case):
         G.install_builtins()
         prog = case["prog"]
-        src, marker = G.render(prog)
+        if "raw" in case:
+            src, marker = case["raw"], case["marker"]
+        else:
+            src, marker = G.render(prog)
         try:
             code = compile(src, "<c05>", "exec", dont_inherit=True)
         except SyntaxError as e:
@@ -583,9 +899,17 @@ class C05(Prop):
             r["ns_unchanged"] = all(list(a.items()) == list(b.items()) and all(a[k] is b[k] for k in a)
                                     for a, b in zip(before, nss))
             r["report_code"] = self._report(code, nss)
+            if r is runs[0] or (r is runs[-1] and len(src) % 3 == 0):
+                r["forms"] = self._forms(src, code, nss)
+                r["ns_unchanged"] = r["ns_unchanged"] and all(list(a.items()) == list(b.items()) and all(a[k] is b[k] for k in a)
+                                                              for a, b in zip(before, nss))
             r["registry"] = G.registry_snapshot()
         G.universe_purge()
         obs = dict(src=src, marker=marker, runs=runs, fixes=G.probe_fixes())
+        if "raw" not in case and self._has_docstring(prog):
+            obs["scan_doc"] = self._scan(src, True)
+            obs["scan_plain"] = self._scan(src, False)
+            obs["scan_missing_only"] = self._scan(src, False, unused=False)
         if any(st[0] in ("import", "importFrom") for st in G.walk_stmts(G.all_stmts(prog))) and not G.probe_unmodelled():
             obs["unused"] = self._unused(src)
         return obs
@@ -597,8 +921,20 @@ class C05(Prop):
         runs = obs["runs"]
         if any(r["early"] for r in runs):
             return []          # a function ran before the last module-level statement: outside the domain
-        if case.get("ext"):
+        skip_sound, skip_prec, judge_prec = set(), set(), True
+        if case.get("ext") and "raw" not in case:
             return []          # global / nonlocal / del: unclaimed extension, explored (K) but not judged
+        if "raw" in case:
+            if case.get("ext"):
+                # match / walrus / type alias / PEP 695: unclaimed extension.  Executed so that a crash is seen; the names
+                # those constructs bind are not judged, nor the ones read only in lazily evaluated positions
+                bound, lazy = G.construct_bound_names(obs["src"])
+                skip_sound = set(bound)
+                skip_prec = set(bound) | set(lazy)
+                judge_prec = case.get("kind") in ("match", "walrus")
+            else:
+                # a name in a type comment is never looked up by the run; it is reported on purpose
+                skip_prec = G.type_comment_names(obs["src"])
         fails = []
         # names listed in `__all__ = [...]` are looked up by a star-importer, not by this run: not judged for precision
         exported = set()
@@ -612,19 +948,27 @@ class C05(Prop):
                     continue
                 hs = heads(rep)
                 for n in r["ne"]:
-                    if n not in hs:
+                    if n not in hs and n not in skip_sound:
                         fails.append(dict(what="NameError name not reported", variant=variant, name=n, run=i,
                                           src=obs["src"], ns=r["nsspec"], loaded=r["loaded"], report=rep,
-                                          unexecuted_binding=G.unexecuted_binding(obs["src"], n, r["stores"])))
-                if r["outcome"] == "ok" and r["all_read"] and not r["local_ne"]:
+                                          unexecuted_binding=G.unexecuted_binding(obs["src"], n, r["stores"], r.get("ne_at", {}).get(n))))
+                if judge_prec and r["outcome"] == "ok" and r["all_read"] and not r["local_ne"]:
                     for d in rep:
                         parts = d.split(".")
                         pre = {".".join(parts[:k]) for k in range(2, len(parts) + 1)}
-                        if parts[0] not in r["ne"] and not (pre & set(r["ae"])) and d not in exported:
+                        if parts[0] not in r["ne"] and not (pre & set(r["ae"])) and d not in exported and parts[0] not in skip_prec:
                             fails.append(dict(what="reported name whose lookups all succeed", variant=variant, name=d, run=i,
                                               src=obs["src"], ns=r["nsspec"], loaded=r["loaded"], report=rep))
             if not r["ns_unchanged"]:
                 fails.append(dict(what="namespaces modified by analysis", run=i, src=obs["src"]))
+            # "for any code": every entry form of find_missing_imports answers like the str form (source-level forms) or
+            # like the code-object form (callables); a builtin needs nothing
+            for form, rep in sorted(r.get("forms", {}).items()):
+                want = [] if form == "builtin" else r["report_code"] if form in ("func", "callobj") else r["report"]
+                if rep != want:
+                    fails.append(dict(what="entry form disagrees", variant=form, name=form, run=i, src=obs["src"],
+                                      ns=r["nsspec"], loaded=r["loaded"], report=rep, want=want))
+        fails += self.oracle_docstrings(obs)
         # one failure per (what, variant, name)
         seen, out = set(), []
         for f in fails:
@@ -633,6 +977,44 @@ class C05(Prop):
                 seen.add(k)
                 out.append(f)
         return out[:6]
+
+    @staticmethod
+    def oracle_docstrings(obs):
+        """scan_for_import_issues with parse_docstrings=True: what strings hold never changes the missing report (a name in
+        a doctest is not looked up by running the code); an import can only leave the unused report through a string that
+        mentions its name, and does leave it when a doctest example reads / a `{name}` reference names the one module-level
+        import that binds the name"""
+        import ast
+        if "scan_doc" not in obs:
+            return []
+        sd, sp = obs["scan_doc"], obs["scan_plain"]
+        src = obs["src"]
+        if "err" in sd or "err" in sp:
+            return [dict(what="scan_for_import_issues raised", err=sd.get("err") or sp.get("err"), src=src, name="scan")]
+        fails = []
+        if sd["missing"] != sp["missing"]:
+            fails.append(dict(what="docstring contents change the missing report", src=src, name="missing",
+                              doc=sd["missing"], plain=sp["missing"]))
+        sm = obs.get("scan_missing_only", sp)
+        if "err" in sm:
+            # (only "it runs" is demanded of find_unused_imports=False: the two missing lists legitimately differ — a dotted
+            # store under an unbound head is listed only with tracking, and `_remove_from_missing_imports` (D9d) drops
+            # different entries when the list is longer)
+            fails.append(dict(what="scan_for_import_issues raised", err=sm["err"], src=src, name="scan"))
+        words, loads, braces = G.docstring_refs(src)
+        tree = ast.parse(src)
+        toplevel = {n.lineno for n in tree.body if isinstance(n, (ast.Import, ast.ImportFrom))}
+        for u in sd["unused"]:
+            if u not in sp["unused"]:
+                fails.append(dict(what="import unused only when docstrings are parsed", src=src, name=u[1]))
+        for u in sp["unused"]:
+            a = ast.parse(u[1]).body[0].names[0]
+            n = a.asname or a.name.split(".")[0]
+            if n not in words and u not in sd["unused"]:
+                fails.append(dict(what="import dropped from the unused report by a string that does not name it", src=src, name=u[1]))
+            if (n in loads or n in braces) and u[0] in toplevel and len(G.binding_sites(src, n)[0]) == 1 and u in sd["unused"]:
+                fails.append(dict(what="import read by a doctest / {name} reference reported unused", src=src, name=u[1]))
+        return fails
 
     # -- model ---------------------------------------------------------------
     @staticmethod
@@ -665,9 +1047,9 @@ class C05(Prop):
         return [[n, 1000 + k] for k, n in enumerate(builtins.__dict__.keys())]
 
     def model_requests(self, case, obs):
-        if "runs" not in obs:
-            return []
-        src, marker, located = G.render_full(case["prog"])
+        if "runs" not in obs or "raw" in case:
+            return []          # raw source snippets have no mini-AST: O only
+        src, marker, located = G.render_full(G.desugar(case["prog"]))
         reqs = []
         b = self.builtins_scope()
         for r in obs["runs"]:
@@ -694,7 +1076,7 @@ class C05(Prop):
             resps = resps[:nr] + resps[nr + 1:]
             if isinstance(obs["unused"], dict):
                 return "scan_for_import_issues raised %s" % obs["unused"]["err"]
-            located = G.render_full(case["prog"])[2]
+            located = G.render_full(G.desugar(case["prog"]))[2]
             want = sorted([l, self._import_at(located, l, i)] for l, i in ru["unused"])
             if want != obs["unused"]:
                 return "unused imports: scan_for_import_issues=%r model=%r src=%r" % (obs["unused"], want, obs["src"])
@@ -724,6 +1106,8 @@ class C05(Prop):
         """K(b): the reference semantics (Pfb.PyCore.Exec) against CPython, run by run."""
         if case.get("ext") is True:
             return None        # global / nonlocal: not modelled exactly; `ext == "del"` (module-level del only) is compared
+        if self._has_star(case["prog"]):
+            return None        # the run-time model has no star import (the analysis model has: K(a) is compared)
         for i, (r, m) in enumerate(zip(obs["runs"], resps)):
             oc = r["outcome"]
             oc = "Local" if oc in ("UnboundLocal", "FreeVar") else oc
